@@ -1,4 +1,11 @@
-"""C20 - the statistics file: layout, record counts, GVT column, exact accounting."""
+"""C20 - the statistics file: layout, record counts, GVT column, exact accounting.
+
+The record-count clause depends on the variant of the flush loop of gvt_msg_drain (finding F6 / its repair). The
+harness observes the variant of the working tree (replay of the kernel-checked F6 witness schedule on the real
+threads: equal record counts => repaired) and tells the driver (`variant <0|1>`, first ops line), so that the loop
+model compared in lock-step is the one that follows the code. Pinned tree: a record-count mismatch with the F6
+signature is the known finding; repaired tree: a record-count mismatch of any signature is a violation
+(Lean: RootSim.C20.same_record_count_fixed)."""
 import importlib.util
 import json
 import os
@@ -15,7 +22,9 @@ THEOREMS = ["RootSim.C20.roundtrip", "RootSim.C20.roundtrip_option", "RootSim.C2
             "RootSim.C20.node_count_eq_thread0", "RootSim.C20.node_untouched_by_others",
             "RootSim.C20.records_fit", "RootSim.C20.file_wf", "RootSim.C20.file_roundtrip",
             "RootSim.C20.same_record_count_counterexample_stop",
-            "RootSim.C20.same_record_count_counterexample_vote", "RootSim.C20.not_same_record_count"]
+            "RootSim.C20.same_record_count_counterexample_vote", "RootSim.C20.not_same_record_count",
+            "RootSim.C20.records_plus_dropped", "RootSim.C20.same_record_count_fixed",
+            "RootSim.C20.same_record_count_fixed_hook", "RootSim.C20.same_record_count_fixed_statement"]
 
 
 DRIVER_BIN = [vlib.DRIVER]
@@ -85,7 +94,9 @@ def run(ctx):
                         "by the codec theorems only, not by runs",
                         "fewer than 2^64 events of any kind between two GVTs (record_exact_of_fits, file_undone_le_forward)",
                         "GVT values handed to stats_on_gvt are non-decreasing (C04) and non-negative finite doubles",
-                        "same_record_count: refuted, not assumed (finding F6)"]
+                        "same_record_count: neither assumed nor trusted - refuted for the pinned flush loop (finding F6), "
+                        "proved for the repaired one (same_record_count_fixed) for executions that return (not the F1 "
+                        "deadlock); which of the two the tree has is observed by the harness"]
     ok, _ = ctx.lean_build(["RootSim.Props.C20"])
     DRIVER_BIN[0] = getattr(ctx, "driver_bin", vlib.DRIVER)
     ctx.token_audit()
@@ -107,8 +118,21 @@ def run(ctx):
     cand = ctx.path("cand")
     rc, o = vlib.run([ctx.path("hc20"), "gen", str(ctx.seed), str(400 if thorough else 60), cand], timeout=60)
     ctx.oblige("harness-run:hc20-gen", rc == 0, o[-300:])
-    cands = driver_lines(["f6demo"]) + open(cand).read().splitlines()
-    verdicts = driver_lines(cands)
+    demos = driver_lines(["f6demo", "f6demo3"])
+    # which flush loop does the tree have? (the harness replays the F6 witness on the real threads)
+    probe_script = ctx.path("probe_script")
+    open(probe_script, "w").write(demos[0] + "\n")
+    rc, o = vlib.run([ctx.path("hc20"), "probe", probe_script, ctx.path("probe")], timeout=150)
+    try:
+        fix6 = json.loads([l for l in o.strip().splitlines() if l.startswith("{")][-1])["fix6"]
+    except (IndexError, ValueError, KeyError):
+        fix6 = -1
+    ctx.oblige("variant-probe(F6 witness schedule replayed on the real threads)", rc == 0 and fix6 in (0, 1), o[-300:])
+    if fix6 not in (0, 1):
+        ctx.violation("harness-crash", {"what": "variant probe", "output": o[-400:]}, True)
+        return
+    cands = demos + open(cand).read().splitlines()
+    verdicts = driver_lines(["variant %d" % fix6] + cands)[1:]
     script = ctx.path("script")
     kept = [c for c, v in zip(cands, verdicts) if v.startswith("done")]
     open(script, "w").write("\n".join(kept) + "\n")
@@ -129,6 +153,11 @@ def run(ctx):
     for l in other_san[:3]:
         ctx.violation("sanitizer", {"site": l, "check": "other"}, True)
     stats = json.loads([l for l in o.strip().splitlines() if l.startswith("{")][-1])
+    ctx.oblige("variant-probe-stable", stats.get("fix6") == fix6, "probe=%s run=%s" % (fix6, stats.get("fix6")))
+    if fix6:
+        # the repaired flush loop must have been exercised: at least the two witness schedules adopt a round there
+        ctx.oblige("repaired-flush-loop-exercised", stats.get("flush_loop_records", 0) >= 3,
+                   "flush_loop_records=%s" % stats.get("flush_loop_records"))
     ops, cf, orf = os.path.join(out, "ops"), os.path.join(out, "c"), os.path.join(out, "oracle")
     # free-running multi-thread runs may hang at shutdown (finding F1, not C20's business): they are retried and,
     # if they keep hanging, dropped (counted in input_distribution.gave_up). Scripted runs are deterministic:
@@ -206,8 +235,9 @@ def run(ctx):
         "op_kinds": kinds, "rejected_decodes": n_bad,
         "scripted_candidates": len(cands), "scripted_replayed": len(kept),
         "scripted_with_unequal_counts_predicted": predicted_unequal,
+        "model_variant_compared": {"flush_loop": "repaired (records the value)" if fix6 else "pinned (drops the value, F6)"},
         "input_distribution": stats})
-    ctx.samples += [l[:200] for l in o_lines if l.startswith(("acct", "f6"))][:6]
+    ctx.samples += [l[:200] for l in o_lines if l.startswith(("variant", "acct", "f6"))][:7]
 
     # ---- S oracle
     seen = set()
@@ -218,6 +248,8 @@ def run(ctx):
             # signature of the known finding F6: every thread's records are exactly its stats_on_gvt calls, the node's records are
             # thread 0's, and the threads merely took part in different numbers of rounds (the flush loop dropped a round's value).
             # Anything else (node differs from thread 0, a thread's records differ from its calls) is a different violation.
+            # On a tree whose flush loop records the value (observed variant fix6) no mismatch is excused: the model proves equal
+            # counts there (same_record_count_fixed), so any mismatch gets a signature that matches no known finding.
             try:
                 tcounts = [int(kv["t%d" % i]) for i in range(int(kv["threads"]))]
                 traced = [int(x) for x in kv.get("traced_gvts", "").split(",") if x]
@@ -225,6 +257,8 @@ def run(ctx):
             except (KeyError, ValueError, IndexError):
                 f6 = False
             signature = "threads-took-part-in-different-numbers-of-rounds" if f6 else "records-do-not-match-rounds"
+            if fix6:
+                signature = "mismatch-on-repaired-flush-loop:" + signature
             sig = ("RECCOUNT", kv.get("mode"), signature)
             if sig in seen:
                 continue
